@@ -327,6 +327,14 @@ def step (st : DState) (line : String) : DState × String :=
       | .error .valueError => (st, "valueError")
       | .error _ => (st, "other-error")
     | _ => (st, "bad-op")
+  | "cryst.angle" :: rest =>
+    match parseFloats rest with
+    | some [b0, b1, b2, b3, b4, b5, b6, b7, b8, h1, k1, l1, h2, k2, l2] =>
+      match CrystalModel.planeAngle ⟨b0, b1, b2, b3, b4, b5, b6, b7, b8⟩ ⟨h1, k1, l1⟩ ⟨h2, k2, l2⟩ with
+      | .ok d => (st, "ok " ++ showFloat d)
+      | .error .assertion => (st, "assertion")
+      | .error _ => (st, "other-error")
+    | _ => (st, "bad-op")
   | "cryst.tth" :: rest =>
     match parseFloats rest with
     | some [b0, b1, b2, b3, b4, b5, b6, b7, b8, h, k, l, en] =>
